@@ -392,10 +392,21 @@ func formatPostingWithOpts(posting *ast.Posting, alignment AlignmentInfo, commod
 // with anything but letters and currency signs in it (a blank, a digit, punctuation)
 // only reads back as one commodity when it is enclosed in double quotes.
 func commodityText(symbol string) string {
+	letters, signs := 0, 0
 	for _, r := range symbol {
-		if !unicode.IsLetter(r) && !unicode.Is(unicode.Sc, r) {
+		switch {
+		case unicode.IsLetter(r):
+			letters++
+		case unicode.Is(unicode.Sc, r):
+			signs++
+		default:
 			return `"` + symbol + `"`
 		}
+	}
+	// Unquoted, a commodity is a word of letters or one currency sign; a symbol that
+	// mixes them ("US$") reads as two things without its quotes.
+	if signs > 1 || (signs == 1 && letters > 0) {
+		return `"` + symbol + `"`
 	}
 	return symbol
 }
